@@ -201,7 +201,7 @@ CLAIMS = {
                  "generators set one unset cell per link; the cross-block "
                  "write-back touches only [nodes1[i], nodes2[j]]; the three "
                  "geographical wrappers feed the kernel alike; node arrays keep the "
-                 "caller's order. Also: rebuilding a network from an edge list passes the node count (W8); every alternative of a rewiring acceptance condition implies the conserved quantity, decided by union-find over its atoms (W9)."),
+                 "caller's order. Also: the Barabasi-Albert node under construction is not drawable before its links are drawn (W11); cross-link models start from a copy of the whole input adjacency (W12); rebuilding a network from an edge list passes the node count (W8); every alternative of a rewiring acceptance condition implies the conserved quantity, decided by union-find over its atoms (W9)."),
         "note": "Does NOT decide igraph generators, distributions or tolerance semantics.",
         "technique": "multiset/guard analysis of the swap block over the Cython parse tree, sibling agreement of wrappers",
     },
@@ -225,7 +225,7 @@ CLAIMS = {
                  "lemma on paper), result re-assembly vs worker result shape, "
                  "chunk-relative/absolute index discipline in the workers, "
                  "loop-carried state of the batched kernel, and repo-wide "
-                 "independence from silence_level. Also: a chunk-relative counter is never compared with an absolute node index in a worker."),
+                 "independence from silence_level. Also: a chunk-relative counter is never compared with an absolute node index in a worker. Chunk tables are read as the loop they stand for; the chunk rule answers proven / refuted (offset, gap, overlap, floor step, missing min) / unknown."),
         "note": ("utils/mpi.py itself (scheduling, FIFO per worker, pickling) and "
                  "numpy's array_split are trusted; floating-point summation order "
                  "not considered; accepted chunk idioms are the ceil-division "
@@ -241,7 +241,7 @@ CLAIMS = {
                  "call site; every dereference in the six C functions is inside "
                  "its buffer (affine pointer analysis with induction variables over "
                  "the clang AST, polynomial bounds); data-dependent bin indices are "
-                 "clamped on both sides; integer product chains cannot overflow. Also: an extent taken from object state is re-established (or guarded by a shape test) whenever the size cell can be rewritten without the buffer cells."),
+                 "clamped on both sides; integer product chains cannot overflow; no stack allocation (alloca) grows with an extent of the data. Also: an extent taken from object state is re-established (or guarded by a shape test) whenever the size cell can be rewritten without the buffer cells."),
         "note": ("LP64; extents >= 0; numpy/igraph internals trusted; the Cython "
                  "compiler's boundscheck is trusted for typed buffers; unsupported C "
                  "constructs give ANALYSIS-ERROR."),
